@@ -368,4 +368,342 @@ Section X.
     destruct (Hvars v Hin) as [Hs Hl]. rewrite HL in Hl. destruct Hl as (l0 & El & Hl).
     apply xfresh_spec in Fr. rewrite El in Fr. lia.
   Qed.
+
+  (** ================= C04: what is not found, not GET/HEAD or unsafe is recomputed ================= *)
+  Lemma miss_computes_x c1 hs now r ov ok :
+    snd (missR c1 hs now r ov ok) = snd (compute hs r ov ok) /\
+    snd (fst (fst (missR c1 hs now r ov ok))) = snd (fst (compute hs r ov ok)).
+  Proof.
+    unfold missX. destruct (compute hs r ov ok) as [[x hs'] lg]. cbn [fst snd].
+    destruct (may_store_x true sfilter (rq_method r) x); split; reflexivity.
+  Qed.
+  Lemma not_found_recomputes_x c hs now r0 :
+    snd (fst (xlookup (lookup_req (prime r0) (override r0)) c now)) = None ->
+    snd (serveR (c, hs) now r0) = snd (compute hs (prime r0) (override r0) (sanitize_ok r0)) /\
+    snd (fst (fst (serveR (c, hs) now r0))) = snd (fst (compute hs (prime r0) (override r0) (sanitize_ok r0))).
+  Proof.
+    intros H. unfold serveX. cbn [negb].
+    destruct (xlookup (lookup_req (prime r0) (override r0)) c now) as [[k found] c1]. cbn [fst snd] in H. subst found.
+    apply miss_computes_x.
+  Qed.
+  Lemma guard_recomputes_x c hs now r0 :
+    sanitize_ok r0 && get_or_head (rq_method (prime r0)) = false ->
+    snd (serveR (c, hs) now r0) = snd (compute hs (prime r0) (override r0) (sanitize_ok r0)) /\
+    snd (fst (fst (serveR (c, hs) now r0))) = snd (fst (compute hs (prime r0) (override r0) (sanitize_ok r0))).
+  Proof.
+    intros H. unfold serveX. cbn [negb].
+    destruct (xlookup (lookup_req (prime r0) (override r0)) c now) as [[k [e|]] c1]; [rewrite H|]; apply miss_computes_x.
+  Qed.
+
+  (** ================= C04: explicit clears ================= *)
+  Lemma xfind_clear_uri k r c :
+    xc_find k (xclear_uri r c) = if key_eqb k (key_p r) || key_eqb k (key_pq r) then None else xc_find k c.
+  Proof.
+    unfold xclear_uri. rewrite !xc_find_remove. destruct (key_eqb k (key_p r)), (key_eqb k (key_pq r)); reflexivity.
+  Qed.
+  Lemma xlookup_absent lr c now :
+    xc_find (key_pq lr) c = None -> xc_find (key_p lr) c = None -> xlookup lr c now = ((key_p lr, None), c).
+  Proof.
+    intros H1 H2. unfold xlookup, xget_item. rewrite H1, H2. reflexivity.
+  Qed.
+  Lemma same_pq_keys a b : path_query a = path_query b -> key_pq a = key_pq b /\ key_p a = key_p b.
+  Proof.
+    intros E. split; [unfold key_pq; rewrite E; reflexivity|].
+    unfold key_p. rewrite (path_query_path _ _ E). reflexivity.
+  Qed.
+  Lemma cleared_uri_is_miss lr r' c now :
+    path_query lr = path_query r' -> snd (fst (xlookup lr (xclear_uri r' c) now)) = None.
+  Proof.
+    intros E. destruct (same_pq_keys _ _ E) as [K1 K2]. rewrite xlookup_absent; [reflexivity | |];
+      rewrite xfind_clear_uri, ?K1, ?K2, key_eqb_refl, ?orb_true_r; reflexivity.
+  Qed.
+  Lemma cleared_page_is_miss lr r' c now :
+    (path_query lr = path_query r' \/
+     exists a, fix_clear = true /\ clear_alias r' = Some a /\ path_query lr = path_query a) ->
+    snd (fst (xlookup lr (xclear_page fix_clear clear_alias r' c) now)) = None.
+  Proof.
+    intros [E | (a & Hf & Ha & E)]; unfold xclear_page.
+    - destruct (if fix_clear then clear_alias r' else None) as [a|]; [|apply cleared_uri_is_miss; exact E].
+      destruct (same_pq_keys _ _ E) as [K1 K2]. rewrite xlookup_absent; [reflexivity | |];
+        rewrite !xfind_clear_uri, ?K1, ?K2, key_eqb_refl, ?orb_true_r;
+        destruct (key_eqb _ (key_p a) || key_eqb _ (key_pq a)); reflexivity.
+    - rewrite Hf, Ha. apply cleared_uri_is_miss. exact E.
+  Qed.
+  (** end to end: after [clear_page(uri)] the next request for that URI — as given, or as the default
+      redirect rewrites it — invokes the layer below *)
+  Lemma clear_then_request_recomputes c hs now r0 r' :
+    override r0 = None ->
+    (path_query (prime r0) = path_query r' \/
+     exists a, fix_clear = true /\ clear_alias r' = Some a /\ path_query (prime r0) = path_query a) ->
+    snd (serveR (xclear_page fix_clear clear_alias r' c, hs) now r0) = snd (compute hs (prime r0) None (sanitize_ok r0)).
+  Proof.
+    intros Ho H. pose proof (not_found_recomputes_x (xclear_page fix_clear clear_alias r' c) hs now r0) as N.
+    rewrite Ho in N. cbn [lookup_req] in N. apply N. apply cleared_page_is_miss. exact H.
+  Qed.
+  Lemma clear_all_is_miss_x lr now : snd (fst (xlookup lr [] now)) = None.
+  Proof. reflexivity. Qed.
+
+  (** ================= C04: 304 exactly by the date rule ================= *)
+  Lemma ims_rule_x c hs now r0 k e c1 :
+    let r := prime r0 in
+    xlookup (lookup_req r (override r0)) c now = ((k, Some e), c1) -> sanitize_ok r0 = true -> get_or_head (rq_method r) = true ->
+    (ims_hit r e = true /\ rx_status (snd (fst (serveR (c, hs) now r0))) = 304 /\ rx_from_cache (snd (fst (serveR (c, hs) now r0))) = true /\
+     snd (serveR (c, hs) now r0) = [] /\ rx_body (snd (fst (serveR (c, hs) now r0))) = [] /\ fst (fst (serveR (c, hs) now r0)) = (c1, hs))
+    \/ ims_hit r e = false.
+  Proof.
+    intros r L Hok GH. unfold serveX. cbn [negb]. fold r. rewrite L, Hok, GH. cbn [andb]. fold (ims_hit r e).
+    destruct (ims_hit r e) eqn:E.
+    - left. cbn [fst snd rx_status rx_from_cache rx_body]. repeat split.
+    - right. reflexivity.
+  Qed.
 End X.
+
+(** ================= C04: one computation per key while fresh, over whole histories ================= *)
+Definition qmx (x : fatx) : bool := f_spref (fx_fat x) =? SP_QUERY.
+
+Lemma key_p_ne_pq a b : key_p a <> key_pq b.
+Proof. unfold key_p, key_pq. destruct (path_query b). discriminate. Qed.
+Lemma keys_same_path a b k :
+  (k = key_pq a \/ k = key_p a) -> (k = key_pq b \/ k = key_p b) -> rq_path a = rq_path b.
+Proof.
+  intros [Ha | Ha] [Hb | Hb]; subst k.
+  - unfold key_pq in Hb. destruct (path_query a) eqn:Pa, (path_query b) eqn:Pb. inversion Hb; subst.
+    apply path_query_path. congruence.
+  - symmetry in Hb. exfalso. exact (key_p_ne_pq _ _ Hb).
+  - exfalso. exact (key_p_ne_pq _ _ Hb).
+  - unfold key_p in Hb. inversion Hb. reflexivity.
+Qed.
+Lemma insert_key_cases lr f : (insert_key lr f = key_pq lr /\ (f_spref f =? SP_QUERY) = true) \/
+                              (insert_key lr f = key_p lr /\ (f_spref f =? SP_QUERY) = false).
+Proof. unfold insert_key. destruct (f_spref f =? SP_QUERY); [left | right]; split; reflexivity. Qed.
+
+Section Once.
+  Variable hstate : Type.
+  Variable compute : hstate -> request -> option (bytes * option bytes) -> bool -> fatx * hstate * list bytes.
+  Variable ims_on : bool.
+  Variable fix_clear fix_svary : bool.
+  Variable sfilter : N -> bool.
+  Variable parse_ims : bytes -> option Z.
+  Variable sanitize_ok : request -> bool.
+  Variable prime : request -> request.
+  Variable override : request -> option (bytes * option bytes).
+  Variable negotiate : request -> fatx -> option (N * bytes).
+  Variable vary_tuple : request -> tuple.
+  Variable vary_header : request -> fatx -> list (bytes * bytes).
+  Variable clear_alias : request -> option request.
+
+  Notation finishR := (finishX fix_svary negotiate vary_header).
+  Notation serveR := (serveX hstate compute true ims_on true true fix_svary sfilter parse_ims sanitize_ok prime override
+                             negotiate vary_tuple vary_header).
+  Notation stepR := (stepX hstate compute true ims_on true true fix_clear fix_svary sfilter parse_ims sanitize_ok prime
+                           override negotiate vary_tuple vary_header clear_alias).
+  Notation runR_state := (runX_state hstate compute true ims_on true true fix_clear fix_svary sfilter parse_ims sanitize_ok
+                                     prime override negotiate vary_tuple vary_header clear_alias).
+
+  (** the request whose response was stored, the response, the time it was stored and a deadline *)
+  Variable r0 : request.
+  Variable x : fatx.
+  Variable now0 D : N.
+  Notation r := (prime r0).
+  Notation ov := (override r0).
+  Notation lr := (lookup_req (prime r0) (override r0)).
+  Notation t := (vary_tuple (prime r0)).
+  Notation k := (insert_key (lookup_req (prime r0) (override r0)) (fx_fat x)).
+
+  (** error responses (sanitize failed) are never admitted *)
+  Hypothesis Herr : forall hs r' ov', may_store_x true sfilter (rq_method r') (fst (fst (compute hs r' ov' false))) = false.
+  (** whatever the layer below computes for this path has the same query-matters-ness and a lifetime
+      that reaches the deadline *)
+  Hypothesis Hsame : forall hs r' ov' ok, rq_path (lookup_req r' ov') = rq_path lr ->
+    qmx (fst (fst (compute hs r' ov' ok))) = qmx x /\
+    match lifetime_x (fst (fst (compute hs r' ov' ok))) with Some L => D <= now0 + L | None => True end.
+
+  Definition OnceInv (c : cachex) (tm : N) : Prop :=
+    exists e, xc_find k c = Some e /\ xv_find t (ex_vars e) <> None /\ ex_created e <= tm /\
+              match ex_life e with Some l => D <= ex_created e + l | None => True end /\
+              (k = key_p lr -> xc_find (key_pq lr) c = None).
+
+  Definition keys_off (r' : request) : Prop := key_pq r' <> k /\ key_p r' <> k.
+  (** operations that do not clear the key *)
+  Definition benign (o : opx) : Prop :=
+    match o with
+    | XClearAll => False
+    | XClearPage r' => keys_off r' /\ match (if fix_clear then clear_alias r' else None) with Some a => keys_off a | None => True end
+    | _ => True
+    end.
+
+  Lemma k_cases : (k = key_pq lr /\ qmx x = true) \/ (k = key_p lr /\ qmx x = false).
+  Proof. apply insert_key_cases. Qed.
+
+  Lemma once_lookup lr1 c tm k1 found c1 :
+    OnceInv c tm -> tm <= D -> xlookup lr1 c tm = ((k1, found), c1) -> OnceInv c1 tm.
+  Proof.
+    intros (e & F & V & Hc & Hl & Hsh) Hle L. destruct (xlookup_cases _ _ _ _ _ _ L) as (_ & Hch & _).
+    exists e. split; [|split; [exact V | split; [exact Hc | split; [exact Hl|]]]].
+    - destruct (Hch k) as [E | (_ & _ & Hex)]; [rewrite E; exact F|].
+      rewrite F in Hex. unfold xfresh in Hex. destruct (ex_life e) as [l|]; [lia | discriminate].
+    - intros Hk. destruct (Hch (key_pq lr)) as [E | [E _]]; rewrite E; [apply Hsh; exact Hk | reflexivity].
+  Qed.
+
+  Lemma once_serve c hs tm r1 :
+    OnceInv c tm -> now0 <= tm -> tm <= D -> OnceInv (fst (fst (fst (serveR (c, hs) tm r1)))) tm.
+  Proof.
+    intros I H0 HD. destruct (serveR (c, hs) tm r1) as [[st' rp] lg] eqn:S. cbn [fst].
+    destruct (serve_cache_update hstate compute ims_on true fix_svary sfilter parse_ims sanitize_ok prime override negotiate vary_tuple vary_header _ _ _ _ _ _ _ S) as (k1 & found & c1 & L & CC).
+    pose proof (once_lookup _ _ _ _ _ _ I HD L) as (e & F & V & Hc & Hl & Hsh).
+    destruct (xlookup_cases _ _ _ _ _ _ L) as (Hk1 & _ & Hres).
+    set (r1' := prime r1) in *. set (ov1 := override r1) in *. set (lr1 := lookup_req r1' ov1) in *.
+    set (x1 := fst (fst (compute hs r1' ov1 (sanitize_ok r1)))) in *.
+    destruct CC as [ | A G | e1 Ef G Im V1 A ].
+    - exists e. repeat split; assumption.
+    - (* a new entry: under another key *)
+      assert (Hnone : found = None).
+      { destruct G as [G | G]; [exact G|]. exfalso.
+        assert (GH : get_or_head (rq_method r1') = true) by (apply may_store_x_iff in A; tauto).
+        rewrite GH, andb_true_r in G. unfold x1 in A. rewrite G in A. rewrite Herr in A. discriminate. }
+      subst found. destruct Hres as [N1 N2].
+      cbv iota. fold r1' ov1. fold lr1.
+      set (kn := insert_key lr1 (fx_fat x1)) in *.
+      assert (Hkn : kn = key_pq lr1 \/ kn = key_p lr1).
+      { unfold kn. destruct (insert_key_cases lr1 (fx_fat x1)) as [[E _] | [E _]]; rewrite E; auto. }
+      assert (Hne : key_eqb k kn = false).
+      { apply key_eqb_neq. intros E. destruct Hkn as [K | K]; rewrite <- E in K; rewrite K in F; congruence. }
+      exists e. rewrite xc_find_insert, Hne. repeat split; try assumption.
+      intros Hk. rewrite xc_find_insert. destruct (key_eqb (key_pq lr) kn) eqn:E2; [|apply Hsh; exact Hk].
+      exfalso. apply key_eqb_eq in E2.
+      destruct (insert_key_cases lr1 (fx_fat x1)) as [[E Q] | [E Q]]; fold kn in E; rewrite E in E2.
+      + assert (Hp : rq_path lr1 = rq_path lr).
+        { apply (keys_same_path lr1 lr (key_pq lr)); [left; exact E2 | left; reflexivity]. }
+        destruct (Hsame hs r1' ov1 (sanitize_ok r1) Hp) as [Hq _]. fold x1 in Hq. unfold qmx in Hq at 1. rewrite Q in Hq.
+        destruct k_cases as [[Ek _] | [_ Eq]]; [|congruence].
+        rewrite Ek in Hk. symmetry in Hk. exact (key_p_ne_pq _ _ Hk).
+      + exact (key_p_ne_pq _ _ (eq_sym E2)).
+    - (* one more variant *)
+      rewrite Ef in Hres. destruct Hres as (_ & F1 & Fr1).
+      destruct (key_eqb k k1) eqn:Ek.
+      + apply key_eqb_eq in Ek. subst k1. rewrite F in F1. inversion F1; subst e1.
+        apply xfresh_spec in Fr1.
+        assert (Hp : rq_path lr1 = rq_path lr).
+        { apply (keys_same_path lr1 lr k); [exact Hk1|]. destruct k_cases as [[E _] | [E _]]; rewrite E; auto. }
+        destruct (Hsame hs r1' ov1 (sanitize_ok r1) Hp) as [_ Hlife]. fold x1 in Hlife.
+        eexists. rewrite xc_find_insert, key_eqb_refl. split; [reflexivity|]. cbn [ex_vars ex_created ex_life].
+        split; [apply xv_find_cons_some; exact V|]. split; [lia|]. split.
+        * destruct (ex_life e) as [l|]; cbn [option_map]; destruct (lifetime_x x1) as [L1|]; cbn [min_life]; try exact Logic.I; lia.
+        * intros Hk. rewrite xc_find_insert. destruct (key_eqb (key_pq lr) k) eqn:E2; [|apply Hsh; exact Hk].
+          apply key_eqb_eq in E2. rewrite Hk in E2. exfalso. exact (key_p_ne_pq _ _ (eq_sym E2)).
+      + exists e. rewrite xc_find_insert, Ek. repeat split; try assumption.
+        intros Hk. rewrite xc_find_insert. destruct (key_eqb (key_pq lr) k1) eqn:E2; [|apply Hsh; exact Hk].
+        apply key_eqb_eq in E2. subst k1. rewrite (Hsh Hk) in F1. discriminate.
+  Qed.
+
+  Lemma once_clear_uri r' c tm : OnceInv c tm -> keys_off r' -> OnceInv (xclear_uri r' c) tm.
+  Proof.
+    intros (e & F & V & Hc & Hl & Hsh) [K1 K2]. exists e. rewrite xfind_clear_uri.
+    apply not_eq_sym in K1. apply not_eq_sym in K2. apply key_eqb_neq in K1. apply key_eqb_neq in K2. rewrite K1, K2. cbn [orb].
+    repeat split; try assumption. intros Hk. rewrite xfind_clear_uri. rewrite (Hsh Hk).
+    destruct (key_eqb _ _ || key_eqb _ _); reflexivity.
+  Qed.
+
+  Lemma once_step st tm o :
+    OnceInv (fst st) tm -> now0 <= tm -> benign o -> snd (fst (stepR st tm o)) <= D ->
+    OnceInv (fst (fst (fst (stepR st tm o)))) (snd (fst (stepR st tm o))) /\ tm <= snd (fst (stepR st tm o)).
+  Proof.
+    destruct st as [c hs]. cbn [fst]. intros I H0 Hb. destruct o as [r1 | r' | | ms]; cbn [stepX].
+    - pose proof (once_serve c hs tm r1 I H0) as H. destruct (serveR (c, hs) tm r1) as [[st' rp] lg]. cbn [fst snd] in *.
+      intros HD. split; [apply H; exact HD | lia].
+    - cbn [fst snd]. intros HD. split; [|lia]. cbn [benign] in Hb. destruct Hb as [B1 B2]. unfold xclear_page.
+      destruct (if fix_clear then clear_alias r' else None) as [a|]; repeat apply once_clear_uri; assumption.
+    - destruct Hb.
+    - cbn [fst snd]. intros HD. split; [|lia]. destruct I as (e & F & V & Hc & Hl & Hsh). exists e. repeat split; try assumption. lia.
+  Qed.
+
+  Lemma run_time_mono ops : forall st tm, tm <= snd (runR_state st tm ops).
+  Proof.
+    induction ops as [|o ops IH]; intros st tm; cbn [runX_state]; [cbn; lia|].
+    assert (Hs : tm <= snd (fst (stepR st tm o))).
+    { destruct st as [c hs]. destruct o as [r1 | r' | | ms]; cbn [stepX]; try (cbn [fst snd]; lia).
+      destruct (serveR (c, hs) tm r1) as [[st' rp] lg]. cbn [fst snd]. lia. }
+    destruct (stepR st tm o) as [[st' tm'] ob]. cbn [fst snd] in Hs. specialize (IH st' tm'). lia.
+  Qed.
+
+  Lemma once_run ops : forall st tm,
+    OnceInv (fst st) tm -> now0 <= tm -> Forall benign ops -> snd (runR_state st tm ops) <= D ->
+    OnceInv (fst (fst (runR_state st tm ops))) (snd (runR_state st tm ops)).
+  Proof.
+    induction ops as [|o ops IH]; intros st tm I H0 Hb HD; cbn [runX_state] in *; [exact I|].
+    inversion Hb as [|? ? Ho Hrest]; subst.
+    pose proof (once_step st tm o I H0 Ho) as S. pose proof (run_time_mono ops) as M.
+    destruct (stepR st tm o) as [[st' tm'] ob]. cbn [fst snd] in S. specialize (M st' tm').
+    destruct S as [S1 S2]; [lia|]. apply IH; try assumption. lia.
+  Qed.
+
+  (** with the invariant, the request is answered from the stored variant: no invocation of the layer below *)
+  Lemma once_hit c hs tm :
+    OnceInv c tm -> tm <= D -> sanitize_ok r0 = true -> get_or_head (rq_method r) = true ->
+    (ims_on = false \/ header (B "if-modified-since") r = None) ->
+    snd (serveR (c, hs) tm r0) = [] /\ snd (fst (fst (serveR (c, hs) tm r0))) = hs /\
+    rx_from_cache (snd (fst (serveR (c, hs) tm r0))) = true /\
+    exists v, v_tuple v = t /\ snd (fst (serveR (c, hs) tm r0)) = finishR r (v_resp v) ims_on true false.
+  Proof.
+    intros (e & F & V & Hc & Hl & Hsh) HD Hok GH Hims.
+    assert (Hfresh : xfresh e tm = true).
+    { apply xfresh_spec. destruct (ex_life e) as [l|]; [lia | exact Logic.I]. }
+    assert (L : exists c1, xlookup lr c tm = ((k, Some e), c1)).
+    { unfold xlookup, xget_item. destruct k_cases as [[Ek _] | [Ek _]].
+      - rewrite Ek in F. rewrite F, Hfresh. rewrite Ek. eexists; reflexivity.
+      - rewrite (Hsh Ek). rewrite Ek in F. rewrite F, Hfresh. rewrite Ek. eexists; reflexivity. }
+    destruct L as [c1 L]. unfold serveX. cbn [negb]. rewrite L, Hok, GH. cbn [andb].
+    assert (Hno : (match (if ims_on then match header (B "if-modified-since") r with
+                                          | Some v => parse_ims v | None => None end else None) with
+                   | Some t0 => ims_fresh t0 (ex_created e) | None => false end) = false).
+    { destruct Hims as [-> | ->]; [reflexivity | destruct ims_on; reflexivity]. }
+    rewrite Hno. destruct (xv_find t (ex_vars e)) as [v|] eqn:Vf; [|congruence].
+    cbn [fst snd]. split; [reflexivity|]. split; [reflexivity|]. split.
+    - unfold finishX. destruct (if is_stream (v_resp v) then None else negotiate r (v_resp v)) as [[? ?]|]; reflexivity.
+    - exists v. split; [apply (xv_find_in _ _ _ Vf) | reflexivity].
+  Qed.
+
+  (** the state right after the response was computed and stored satisfies the invariant *)
+  Lemma once_init c hs hs1 lg1 :
+    sanitize_ok r0 = true ->
+    snd (fst (xlookup lr c now0)) = None ->
+    compute hs r ov true = (x, hs1, lg1) -> may_store_x true sfilter (rq_method r) x = true ->
+    OnceInv (fst (fst (fst (serveR (c, hs) now0 r0)))) now0.
+  Proof.
+    intros Hok Hnone C A. unfold serveX. cbn [negb]. rewrite Hok.
+    destruct (xlookup lr c now0) as [[k1 found] c1] eqn:L. cbn [fst snd] in Hnone. subst found.
+    destruct (xlookup_cases _ _ _ _ _ _ L) as (_ & _ & N1 & N2).
+    unfold missX. rewrite C, A. cbn [fst].
+    eexists. rewrite xc_find_insert, key_eqb_refl. split; [reflexivity|]. cbn [ex_vars ex_created ex_life xv_find v_tuple].
+    assert (Ht : tuple_eqb t t = true) by (apply tuple_eqb_eq; reflexivity). rewrite Ht.
+    split; [discriminate|]. split; [lia|]. split.
+    - destruct (Hsame hs r ov true eq_refl) as [_ Hl]. rewrite C in Hl. cbn [fst] in Hl.
+      destruct (lifetime_x x); [lia | exact Logic.I].
+    - intros Hk. rewrite xc_find_insert. destruct (key_eqb (key_pq lr) k) eqn:E; [|exact N1].
+      apply key_eqb_eq in E. rewrite Hk in E. exfalso. exact (key_p_ne_pq _ _ (eq_sym E)).
+  Qed.
+
+  (** In every history of operations that do not clear the key — any requests, waits and clears of other pages —
+      that follows the computation and storing of a response, the same request is answered without invoking
+      the layer below as long as the deadline (the shortest lifetime the handler gives this path) has not passed. *)
+  Theorem computed_once_history c hs hs1 lg1 ops :
+    sanitize_ok r0 = true -> get_or_head (rq_method r) = true ->
+    (ims_on = false \/ header (B "if-modified-since") r = None) ->
+    snd (fst (xlookup lr c now0)) = None ->
+    compute hs r ov true = (x, hs1, lg1) -> may_store_x true sfilter (rq_method r) x = true ->
+    Forall benign ops ->
+    let st1 := fst (fst (serveR (c, hs) now0 r0)) in
+    let st2 := fst (runR_state st1 now0 ops) in
+    let tm2 := snd (runR_state st1 now0 ops) in
+    tm2 <= D ->
+    snd (serveR st2 tm2 r0) = [] /\ snd (fst (fst (serveR st2 tm2 r0))) = snd st2 /\
+    rx_from_cache (snd (fst (serveR st2 tm2 r0))) = true /\
+    exists v, v_tuple v = t /\ snd (fst (serveR st2 tm2 r0)) = finishR r (v_resp v) ims_on true false.
+  Proof.
+    intros Hok GH Hims Hnone C A Hb st1 st2 tm2 HD.
+    pose proof (once_init c hs hs1 lg1 Hok Hnone C A) as I1. fold st1 in I1.
+    assert (I2 : OnceInv (fst st2) tm2).
+    { apply once_run; try assumption. lia. }
+    destruct st2 as [c2 hs2]. cbn [fst snd] in *. apply once_hit; assumption.
+  Qed.
+End Once.
